@@ -1228,6 +1228,7 @@ int main(int argc, char** argv) {
         for (auto& f : forms) {
             checkIndex(m, *f.g, b, cs.actnum, f.name);
             fixups += (long)f.g->getZcornFixed();
+            if (f.g->getZcornFixed() != 0) rep.cover("grids_with_zcorn_adjusted_by_the_library", f.name);
             if (f.g->getCartesianSize() != b.ncell()) continue;
             if (block && f.name == blockName) {
                 blockUsable = checkBlockClosedForms(m, *f.g, cs, si);
